@@ -303,7 +303,7 @@ def mpLoop : Nat → Bytes → PP → ML → PP × ML × Flow
 
 /-- `post_process_multipart`; result = `MHD_YES`? -/
 def postProcessMultipart (pp : PP) (d : Bytes) : PP × Bool :=
-  match mpLoop (8 * (d.length + pp.buf.length) + 16) d pp {} with
+  match mpLoop (16 * (d.length + pp.buf.length) + 16) d pp {} with
   | (pp1, _, .ret) => (pp1, false)
   | (pp1, l1, _) =>
     if l1.ioff > pp1.buf.length then (pp1.setFault "memmove-oob", false) else
